@@ -86,6 +86,16 @@ def as_and(c):
     return c if (isinstance(c, list) and c and c[0] == "and") else ["and", c]
 
 
+def msort(items):
+    """Sorted, duplicates kept for numeric effects (two equal increases add up), dropped for literals."""
+    out = []
+    for x in sorted(items, key=lambda y: json.dumps(y)):
+        numeric = isinstance(x, list) and x and x[0] in pddl.ASSIGN_OPS + ("scale-up", "scale-down")
+        if numeric or not out or out[-1] != x:
+            out.append(x)
+    return out
+
+
 def canon_eff(e):
     """Effect -> sorted list of groups."""
     items = e[1:] if (e and e[0] == "and") else [e]
@@ -94,13 +104,13 @@ def canon_eff(e):
         if not isinstance(x, list) or not x:
             simple.append(x)
         elif x[0] == "when" and len(x) == 3:
-            groups.append(["when", canon_cond(as_and(x[1])), usort(canon_simple(y) for y in as_and(x[2])[1:])])
+            groups.append(["when", canon_cond(as_and(x[1])), msort(canon_simple(y) for y in as_and(x[2])[1:])])
         elif x[0] == "forall" and len(x) == 3 and isinstance(x[2], list) and x[2] and x[2][0] == "when" and len(x[2]) == 3:
             w = x[2]
-            groups.append(["forall", x[1], canon_cond(as_and(w[1])), usort(canon_simple(y) for y in as_and(w[2])[1:])])
+            groups.append(["forall", x[1], canon_cond(as_and(w[1])), msort(canon_simple(y) for y in as_and(w[2])[1:])])
         else:
             simple.append(canon_simple(x))
-    return [usort(simple), usort(groups)]
+    return [msort(simple), usort(groups)]
 
 
 def canon_simple(x):
@@ -276,7 +286,7 @@ def explain_known(tag, part, a):
     """Known findings that excuse a silent alteration of an outside form."""
     if tag in ("repeated-arg-atom", "repeated-arg-fterm") and ctx.active(F_K2_LIFTED):
         return F_K2_LIFTED
-    if tag in ("nary-arith", "wrong-arity-fterm-extra") and ctx.active(F_K7):
+    if tag in ("nary-arith", "nary-arith-literals", "wrong-arity-fterm-extra") and ctx.active(F_K7):
         return F_K7
     return None
 
@@ -394,7 +404,7 @@ def check_case(case):
 
 # ---- generation ----------------------------------------------------------------------------------------
 
-OUTSIDE = ["single-literal-pre", "top-not-pre", "single-numeric-pre", "imply", "exists", "either", "nary-arith",
+OUTSIDE = ["single-literal-pre", "top-not-pre", "single-numeric-pre", "imply", "exists", "either", "nary-arith", "nary-arith-literals",
            "unary-minus", "scale-up", "undeclared-pred-pre", "undeclared-pred-neg-pre", "undeclared-pred-eff",
            "undeclared-pred-del", "repeated-arg-atom", "repeated-arg-fterm", "wrong-arity-atom-less",
            "wrong-arity-atom-extra", "wrong-arity-fterm-less", "wrong-arity-fterm-extra", "not-and",
@@ -438,6 +448,14 @@ def inject(ch, dom, tag):
     elif tag == "nary-arith":
         if not ft: return None
         ops.append(["pre-add", [">=", ["+", ft, "1", "2"], "0"]])
+    elif tag == "nary-arith-literals":
+        if not ft: return None
+        op = ch.choice(["+", "*", "-", "/"])
+        nums = [ch.choice(["2", "3", "5", "10"]) for _ in range(ch.int(3, 4))]
+        if ch.flag(0.5):
+            ops.append(["pre-add", [">=", ft, [op] + nums]])
+        else:
+            ops.append(["eff-add", [ch.choice(["increase", "assign"]), ft, [op] + nums]])
     elif tag == "unary-minus":
         if not ft: return None
         ops.append(["pre-add", ["<=", ["-", ft], "0"]])
